@@ -411,7 +411,7 @@ def run_one_program(ctx, h, tag, path, vname, k, engines):
     except subprocess.TimeoutExpired:
         return {"skip": "build-timeout"}
     if p.returncode != 0 or not os.path.exists(pre + ".wasm"):
-        return {"skip": "does-not-build-as-single-file"}
+        return {"skip": "does-not-build-as-single-file", "why": "rc=%d %s" % (p.returncode, (p.stderr or p.stdout)[-160:].replace("\n", " "))}
     wat = open(pre + ".wat", errors="replace").read()
     mods = set(l.split('"')[1] for l in wat.splitlines() if l.lstrip().startswith("(import "))
     if mods - {"syscall_js"}:
@@ -421,16 +421,14 @@ def run_one_program(ctx, h, tag, path, vname, k, engines):
         return {"skip": "no-main-function"}          # a package file, not a program
     res = {}
     for e in engines:
-        try:
-            if e == "node":
-                q = subprocess.run(["node", NODE_JS, "run", pre + ".wasm", pre + ".fset", mainf], stdout=subprocess.PIPE, stderr=subprocess.PIPE,
-                                   text=True, timeout=120, stdin=subprocess.DEVNULL, cwd=ctx.tmp)
-            else:
-                q = subprocess.run([h, "run", e, pre + ".wasm", pre + ".fset", mainf], stdout=subprocess.PIPE, stderr=subprocess.PIPE,
-                                   text=True, timeout=120, stdin=subprocess.DEVNULL, cwd=ctx.tmp)
-            res[e] = (q.stdout.strip().splitlines() or ["crash rc=%d %s" % (q.returncode, q.stderr[-300:].replace("\n", " "))])[-1]
-        except subprocess.TimeoutExpired:
-            res[e] = "timeout"
+        cmd = ["node", NODE_JS, "run", pre + ".wasm", pre + ".fset", mainf] if e == "node" else [h, "run", e, pre + ".wasm", pre + ".fset", mainf]
+        for limit in (120, 900):                     # a time-out is retried once with a generous limit (loaded machine) before it counts
+            try:
+                q = subprocess.run(cmd, stdout=subprocess.PIPE, stderr=subprocess.PIPE, text=True, timeout=limit, stdin=subprocess.DEVNULL, cwd=ctx.tmp)
+                res[e] = (q.stdout.strip().splitlines() or ["crash rc=%d %s" % (q.returncode, q.stderr[-300:].replace("\n", " "))])[-1]
+                break
+            except subprocess.TimeoutExpired:
+                res[e] = "timeout"
     for f in (".wat", ".wasm", ".fset", ".main"):
         try:
             os.remove(pre + f)
@@ -451,6 +449,9 @@ def whole_modules(ctx, h, ev):
             rel = os.path.relpath(path, vlib.REPO) if path.startswith(vlib.REPO) else os.path.relpath(path, vlib.VERIF)
             if "skip" in r:
                 skipped[r["skip"].split(":")[0]] += 1
+                if tag != "repo" and r["skip"].startswith("does-not-build"):
+                    # corpus and generated programs are expected to compile: say why one did not (not a C31 matter, but visible)
+                    ctx.notes.append("program %s does not build: %s" % (rel, r.get("why", "")))
                 continue
             res = r["res"]
             if any(v == "timeout" for v in res.values()):
